@@ -275,6 +275,20 @@ def make_case(rng):
         if rng.random() < 0.3:
             # also fix the known growth rate of the trending variable
             plan["fix_change"] = list(meta["fix"].keys())
+        elif rng.random() < 0.45:
+            # growth mode with an ENDOGENIZED PARAMETER: a second variable is level-fixed (its change stays unknown) and a
+            # parameter that shifts its level is backed out  (y = kap*a*gap -> kap;  q = z + s, s -> c;  r -> rrbar)
+            scale = float(np.round(rng.uniform(0.8, 1.3), 3))
+            pv = {p_["name"]: p_["value"] for p_ in spec["params"]}
+            tpl = meta["template"]
+            if tpl == "trend-productivity":
+                var, par, lvl_ = "y", "kap", pv["kap"] * scale * meta["fix"]["a"]
+            elif tpl == "random-walk-drift":
+                var, par, lvl_ = "q", "c", meta["fix"]["z"] + (pv["c"] * scale if pv["c"] != 0 else 0.4)
+            else:
+                var, par, lvl_ = "r", "rrbar", (pv["rrbar"] * scale) + 100 * (pv["pibar"] - 1)
+            meta = dict(meta, fix=dict(meta["fix"], **{var: float(np.round(lvl_, 6))}))
+            plan = {"fix_level": list(meta["fix"].keys()), "endogenize": [par]}
     elif family == "N" and rng.random() < 0.35:
         i = int(rng.integers(0, len(spec["tvars"])))
         if rng.random() < 0.5:
@@ -343,6 +357,8 @@ def run_case(c, case):
                 plan.fix_level(tuple(pl["fix_level"]))
             if pl.get("fix_change"):
                 plan.fix_change(tuple(pl["fix_change"]))
+            if pl.get("endogenize"):
+                plan.endogenize(tuple(pl["endogenize"]))
             for a, b in pl.get("swap", []):
                 plan.swap((a, b))
                 m.assign(**{a: case["steady"][a][0] * pl["scale"]})
